@@ -85,6 +85,16 @@ fn compare_all(elems: &[Elem], out: &Path, timeout: Duration) -> Vec<Compared> {
             pinned[*k] = fro[gi][n].clone();
         }
     }
+    // a difference seen through a batch run (files on disk) is confirmed on standard input, the way the working tree
+    // got the text: generated-file markers, module declarations and newline detection behave differently for files
+    let redo: Vec<usize> = (0..elems.len()).filter(|i| match &pinned[*i] { Some(p) => !(cur[*i].status == Status::Ok && (if cur[*i].out.is_empty() { elems[*i].src.as_bytes() } else { cur[*i].out.as_bytes() }) == &p[..]), None => false }).collect();
+    let again: Vec<Option<Vec<u8>>> = par_map(&redo, |i| {
+        let r = frozen(&elems[*i].src, &elems[*i].cfg, timeout);
+        if r.code == Some(0) && !r.timed_out { Some(r.stdout) } else { None }
+    });
+    for (i, a) in redo.iter().zip(again.into_iter()) {
+        pinned[*i] = a;
+    }
     cur.into_iter().zip(pinned.into_iter()).map(|(wt, pinned)| Compared { wt, pinned }).collect()
 }
 
